@@ -184,4 +184,33 @@ theorem C13_do_compose_graph (s : BNState) (vs ws : List Var)
   · rw [h2.2.2.1 e, h1.2.2.1 e, h2'.2.2.1 e, h1'.2.2.1 e]
     tauto
 
+/-- **truncated factorisation, the table side**: after `do(vs)` on a model whose CPDs are CPD-shaped (`C15_cpd_bookkeeping`:
+    every reachable state), the stored CPD of every intervened variable is a table over that variable alone - its
+    parents are gone from the table as `C13_do_surgery` removes them from the graph - and all other CPDs are untouched -/
+theorem C13_do_cpd_parentless (s : BNState) (vs : List Var) (hv : vs.all s.nodes.contains = true) (h : s.CpdInv) :
+    (∀ g ∈ (s.step (.doOp vs)).1.cpds, childOf g ∈ vs → g.scope = [childOf g]) ∧
+    (∀ f ∈ s.cpds, childOf f ∉ vs → f ∈ (s.step (.doOp vs)).1.cpds) := by
+  simp only [BNState.step, hv, if_true]
+  refine ⟨?_, ?_⟩
+  · intro g hg hc
+    obtain ⟨f, hf, rfl⟩ := List.mem_map.mp hg
+    have hsh := (h.2 f hf).1
+    by_cases hcv : vs.contains (childOf f) = true
+    · simp only [hcv, if_true] at hc ⊢
+      have hnot : childOf f ∉ f.scope.drop 1 := by
+        obtain ⟨hne, _, hnod⟩ := hsh
+        cases hsc : f.scope with
+        | nil => exact absurd hsc hne
+        | cons c rest =>
+          rw [hsc] at hnod
+          simpa [childOf, hsc] using (List.nodup_cons.mp hnod).1
+      rw [(shaped_marg f _ hsh hnot).2]
+      exact C15_do_parentless f hsh
+    · simp only [hcv] at hc
+      exact absurd (List.contains_iff_mem.mpr hc) hcv
+  · intro f hf hc
+    refine List.mem_map.mpr ⟨f, hf, ?_⟩
+    simp only [List.contains_iff_mem, ite_eq_right_iff]
+    intro hh; exact absurd hh hc
+
 end PgmVerif
